@@ -131,6 +131,12 @@ def ref(name):
     return P("ref", name=name)
 
 
+def disc(alias, mapping, *alts, **o):
+    """discriminated union; mapping: ((key, class name), ...); o: explicit=<pyexpr of the
+    mapping argument or None>, inherited=<base class name or None>"""
+    return P("disc", *alts, alias=alias, mapping=tuple(mapping), **o)
+
+
 def undef(s):
     """Union[s, UndefinedType]"""
     return P("undef", s)
@@ -159,7 +165,7 @@ OBJ_C = ("min_props", "max_props")
 
 def render(s: Sp) -> str:
     k = s.k
-    if k in ("int", "float", "str", "bool", "none", "any"):
+    if k in ("int", "float", "str", "bool", "none", "any", "unsup"):
         return k
     if k == "ref":
         return "@" + s.opt("name")
@@ -224,6 +230,7 @@ def tyexpr(s: Sp) -> str:
         "bool": "bool",
         "none": "None",
         "any": "Any",
+        "unsup": "complex",
     }
     if k in simple:
         return simple[k]
@@ -234,6 +241,12 @@ def tyexpr(s: Sp) -> str:
         return "Union[" + ", ".join(tyexpr(c) for c in a) + "]"
     if k == "undef":
         return f"Union[{tyexpr(a[0])}, UndefinedType]"
+    if k == "disc":
+        if s.opt("inherited"):
+            return s.opt("inherited")
+        u = "Union[" + ", ".join(tyexpr(c) for c in a) + "]"
+        arg = repr(s.opt("alias")) + (", " + s.opt("explicit") if s.opt("explicit") else "")
+        return f"Annotated[{u}, discriminator({arg})]"
     if k == "list":
         return f"List[{tyexpr(a[0])}]"
     if k == "seq":
@@ -357,6 +370,8 @@ def source(root: Sp, extra_src: str = "") -> str:
             lines.append(f"{name} = NewType({name!r}, {tyexpr(d.a[0])})")
             if d.opt("schema"):
                 lines.append(f"{_schema_expr(d.opt('schema'))}({name})")
+        elif d.opt("raw_src"):
+            lines.extend(d.opt("raw_src").splitlines())
         else:
             kind = d.opt("kind")
             for deco in d.opt("deco", ()):
